@@ -101,6 +101,35 @@ func c13collectMsg(ch <-chan *protocoltypes.GroupMessageEvent) []string {
 	return out
 }
 
+// c13linear checks that got lists exactly the entries of want, each once, every entry after its causal parents.
+func c13linear(got []string, want map[string]bool, parents map[string][]string) string {
+	pos := map[string]int{}
+	for i, c := range got {
+		if _, dup := pos[c]; dup {
+			return "an entry is listed twice"
+		}
+		if !want[c] {
+			return "an entry that is not in the log is listed"
+		}
+		pos[c] = i
+	}
+	if len(pos) != len(want) {
+		return fmt.Sprintf("%d of the %d entries held are listed", len(pos), len(want))
+	}
+	for c, ps := range parents {
+		ci, ok := pos[c]
+		if !ok {
+			continue
+		}
+		for _, p := range ps {
+			if pi, ok := pos[p]; ok && pi > ci {
+				return fmt.Sprintf("entry #%d is listed before its causal parent #%d", ci, pi)
+			}
+		}
+	}
+	return ""
+}
+
 func c13run(r *kernel.Run, seed uint64) {
 	ctx := context.Background()
 	kernel.SeedCrypto(seed)
@@ -129,19 +158,27 @@ func c13run(r *kernel.Run, seed uint64) {
 	}
 	gid := g.GroupIDAsString()
 	w, rep := s.nodes[0], s.nodes[1]
-	// the replica learns the writer's chain key out of band (the listing of messages needs it)
-	wmd, _ := w.ss.GetOwnMemberDeviceForGroup(g)
-	rmd, _ := rep.ss.GetOwnMemberDeviceForGroup(g)
-	ann, err := w.ss.GetShareableChainKey(ctx, g, rmd.Member())
-	if err != nil {
-		r.Infra("ann: %v", err)
-		return
+	// the replicas learn each other's chain key out of band (the listing of messages needs it)
+	for _, pair := range [][2]*vnode{{w, rep}, {rep, w}} {
+		amd, _ := pair[0].ss.GetOwnMemberDeviceForGroup(g)
+		bmd, _ := pair[1].ss.GetOwnMemberDeviceForGroup(g)
+		ann, err := pair[0].ss.GetShareableChainKey(ctx, g, bmd.Member())
+		if err != nil {
+			r.Infra("ann: %v", err)
+			return
+		}
+		if err := pair[1].ss.RegisterChainKey(ctx, g, amd.Device(), ann); err != nil {
+			r.Infra("register: %v", err)
+			return
+		}
 	}
-	if err := rep.ss.RegisterChainKey(ctx, g, wmd.Device(), ann); err != nil {
-		r.Infra("register: %v", err)
-		return
-	}
-	r.Logf("listing: metadata=%d messages=%d plan=%d eagerdag=%v", nmeta, nmsg, plan, s.w.EagerDag)
+	// two writers: the second replica writes too, concurrently with the first whenever entries are still in flight or
+	// the replicas are partitioned. The reference order is then no longer the append order of one writer: it is the
+	// full listing itself, which must be a linear extension of the causal order (every entry after its parents), the
+	// same on both replicas, and every range must be the contiguous slice of it.
+	twoWriters := r.Choose(3) == 0
+	r.Logf("listing: metadata=%d messages=%d plan=%d eagerdag=%v two_writers=%v", nmeta, nmsg, plan, s.w.EagerDag, twoWriters)
+	parents := map[string][]string{}
 	if plan == 0 || plan == 3 {
 		s.connectAll()
 	}
@@ -187,6 +224,13 @@ func c13run(r *kernel.Run, seed uint64) {
 					}
 					got = c13collectMsg(ch)
 				}
+				if twoWriters {
+					if msg := c13linear(got, held, parents); msg != "" {
+						r.Violate("listing", "wrong-order", "%s on %s (%s store): %s", where, n.name, map[bool]string{true: "metadata", false: "message"}[meta], msg)
+						return false
+					}
+					continue
+				}
 				if !sameStrings(got, want) {
 					r.Violate("listing", "wrong-order", "%s on %s (%s store): a full listing of the %d entries held does not follow log order", where, n.name, map[bool]string{true: "metadata", false: "message"}[meta], len(want))
 					return false
@@ -208,22 +252,33 @@ func c13run(r *kernel.Run, seed uint64) {
 			s.w.Disconnect(0, 1)
 			r.Fault("partition")
 		}
+		wr := w
+		if twoWriters && s.r.Choose(2) == 1 {
+			wr = rep
+			r.Probe("second_writer_wrote")
+		}
 		if (s.r.Choose(2) == 0 && mi < nmeta) || gi >= nmsg {
-			op, err := w.gcs[gid].MetadataStore().SendAppMetadata(ctx, []byte(fmt.Sprintf("meta-%d", mi)))
+			op, err := wr.gcs[gid].MetadataStore().SendAppMetadata(ctx, []byte(fmt.Sprintf("meta-%d", mi)))
 			if err != nil {
 				r.Infra("append metadata: %v", err)
 				return
 			}
 			metaOrder = append(metaOrder, op.GetEntry().GetHash().String())
+			for _, p := range op.GetEntry().GetNext() {
+				parents[op.GetEntry().GetHash().String()] = append(parents[op.GetEntry().GetHash().String()], p.String())
+			}
 			mi++
 			s.wait() // the store's own reaction to the write (head publication) runs before the next simulator action
 		} else {
-			op, err := w.gcs[gid].MessageStore().AddMessage(ctx, []byte(fmt.Sprintf("msg-%d", gi)))
+			op, err := wr.gcs[gid].MessageStore().AddMessage(ctx, []byte(fmt.Sprintf("msg-%d", gi)))
 			if err != nil {
 				r.Infra("append message: %v", err)
 				return
 			}
 			msgOrder = append(msgOrder, op.GetEntry().GetHash().String())
+			for _, p := range op.GetEntry().GetNext() {
+				parents[op.GetEntry().GetHash().String()] = append(parents[op.GetEntry().GetHash().String()], p.String())
+			}
 			gi++
 			s.wait()
 		}
@@ -350,6 +405,53 @@ func c13run(r *kernel.Run, seed uint64) {
 			}
 		}
 		return true
+	}
+	if twoWriters {
+		for _, meta := range []bool{true, false} {
+			appended := metaOrder
+			if !meta {
+				appended = msgOrder
+			}
+			all := map[string]bool{}
+			for _, c := range appended {
+				all[c] = true
+			}
+			var ref []string
+			for i, n := range s.nodes {
+				var got []string
+				if meta {
+					ch, err := n.gcs[gid].MetadataStore().ListEvents(ctx, nil, nil, false)
+					if err != nil {
+						r.Violate("listing", "listing-failed", "full listing on %s: %v", n.name, err)
+						return
+					}
+					got = c13collectMeta(ch)
+				} else {
+					ch, err := n.gcs[gid].MessageStore().ListEvents(ctx, nil, nil, false)
+					if err != nil {
+						r.Violate("listing", "listing-failed", "full listing on %s: %v", n.name, err)
+						return
+					}
+					got = c13collectMsg(ch)
+				}
+				if msg := c13linear(got, all, parents); msg != "" {
+					r.Violate("listing", "wrong-order", "full listing on %s with two writers: %s", n.name, msg)
+					return
+				}
+				if i == 0 {
+					ref = got
+				} else if !sameStrings(ref, got) {
+					r.Violate("listing", "wrong-order", "two replicas holding the same %d entries (two writers, concurrent entries) list them in different orders", len(got))
+					return
+				}
+			}
+			if meta {
+				metaOrder = ref
+			} else {
+				msgOrder = ref
+			}
+		}
+		r.Probe("two_writers_reference_order")
 	}
 	for _, n := range s.nodes {
 		gc := n.gcs[gid]
